@@ -15,7 +15,9 @@ EXTENDS Naturals, Sequences, FiniteSets, TLC, Json
 Keys == {"kIdp1", "kIdp1b", "kIdp2", "kAttacker", "kBexp"}
 \* "signExpired": the signing certificate metadata holds for idp1 has expired.  It is still the only key metadata names for
 \* idp1: whatever the receiver makes of its dates, no other key becomes trusted in its place.
-Layouts == {"sign", "sign2", "encOnly", "noUse", "signAndEnc", "noKeys", "absent", "signExpired"}
+\* "noStore": the receiver has no metadata at all (nothing configured, or a store with no source): nobody is known, and with
+\* the default setting nothing in a message can change that
+Layouts == {"sign", "sign2", "encOnly", "noUse", "signAndEnc", "noKeys", "absent", "signExpired", "noStore"}
 \* key descriptors (key, use) of idp1 per layout; "none" = no use attribute
 Descr(l) == CASE l = "sign"   -> {<<"kIdp1", "signing">>}
               [] l = "sign2"  -> {<<"kIdp1", "signing">>, <<"kIdp1b", "signing">>}
@@ -42,7 +44,8 @@ Scn == [layout : Layouts, issuer : Issuers, signKey : Keys, embedded : Keys \cup
         \* certOnly: (requests) the receiver has want_authn_requests_only_with_valid_cert set.  It adds a demand, it opens
         \* no other source of keys.
         certOnly : BOOLEAN]
-WellFormed(s) == /\ (s.respIssuer = "absent" => s.level = "response" /\ s.outer = "same" /\ ~s.priorEnc /\ s.issuer \in {"idp1", "idp2"})
+WellFormed(s) == /\ (s.layout = "noStore" => s.level \in {"response", "assertion"} /\ s.outer = "same" /\ ~s.priorEnc /\ s.respIssuer = "present" /\ ~s.certOnly)
+                 /\ (s.respIssuer = "absent" => s.level = "response" /\ s.outer = "same" /\ ~s.priorEnc /\ s.issuer \in {"idp1", "idp2"})
                  /\ (s.certOnly => s.level = "request" /\ ~s.priorEnc /\ s.outer = "same")
                  /\ (s.signKey = "kBexp" \/ s.embedded = "kBexp") => s.layout = "signExpired"
                  /\ s.layout = "signExpired" => s.outer = "same" /\ ~s.priorEnc
@@ -54,8 +57,8 @@ vars == <<scn, pc, certs, verdict>>
 
 \* the entity the signed element itself names
 SignedIssuer == IF scn.respIssuer = "absent" THEN "nobody" ELSE scn.issuer
-InMetadata(i)  == i = "idp2" \/ (i = "idp1" /\ scn.layout # "absent")
-Descriptors(i) == IF i = "idp2" THEN {<<"kIdp2", "signing">>} ELSE IF i = "idp1" THEN Descr(scn.layout) ELSE {}
+InMetadata(i)  == scn.layout # "noStore" /\ (i = "idp2" \/ (i = "idp1" /\ scn.layout # "absent"))
+Descriptors(i) == IF scn.layout = "noStore" THEN {} ELSE IF i = "idp2" THEN {<<"kIdp2", "signing">>} ELSE IF i = "idp1" THEN Descr(scn.layout) ELSE {}
 \* the signing certificates metadata holds for an entity: use="signing" or no use attribute
 Trusted(i) == {d[1] : d \in {x \in Descriptors(i) : x[2] \in {"signing", "none"}}}
 
